@@ -452,6 +452,23 @@ func serverHarness(rc *RunCtx) {
 			rc.Sample["tasks"] = nTasks
 			doneC := make(chan int, nTasks)
 			siteD := simrt.HarnessSite("server.shared-done")
+			if tp.Intn("deadpeer", 3) == 2 {
+				// one caller has hung up by the time its reply is written (connection reset): that reply is lost,
+				// whatever Process makes of it - and every other request is answered as if nothing had happened
+				var victim *rawReq
+				for _, r := range reqs {
+					if r.kind != "malformed" && (victim == nil || (victim.outcome == "ok" && r.outcome != "ok")) {
+						victim = r
+					}
+				}
+				if victim != nil {
+					rc.Fault("reply-cannot-be-written-the-caller-has-hung-up")
+					dead := &recStream{site: simrt.HarnessSite("dead-out.Write"), fail: true}
+					in := &thrift.TMemoryBuffer{Buffer: bytes.NewBuffer(append([]byte(nil), victim.frame[4:]...))}
+					env.proc.Process(env.pf.GetProtocol(in), env.pf.GetProtocol(frugal.NewTFramedTransport(dead)))
+					victim.kind = "malformed" // (not sent again below, not judged)
+				}
+			}
 			for t := 0; t < nTasks; t++ {
 				t := t
 				s.Go("processor-caller", func() {
@@ -557,6 +574,7 @@ func settle(d time.Duration) {
 type recStream struct {
 	buf  []byte
 	site int
+	fail bool // the peer is gone: every write fails
 }
 
 func (r *recStream) Open() error  { return nil }
@@ -569,6 +587,9 @@ func (r *recStream) Flush(ctx context.Context) error { simrt.Pre(r.site); return
 func (r *recStream) RemainingBytes() uint64          { return 0 }
 func (r *recStream) Write(p []byte) (int, error) {
 	simrt.Pre(r.site)
+	if r.fail {
+		return 0, thrift.NewTTransportException(thrift.UNKNOWN_TRANSPORT_EXCEPTION, "write tcp 127.0.0.1:9090: connection reset by peer")
+	}
 	r.buf = append(r.buf, p...)
 	return len(p), nil
 }
